@@ -20,8 +20,8 @@ import (
 )
 
 type fn struct {
-	name       string
-	off, end   int // offsets into text
+	name     string
+	off, end int // offsets into text
 }
 
 type image struct {
